@@ -5,6 +5,7 @@ mod c09;
 mod c10;
 mod cases;
 mod ep;
+mod float;
 mod gen;
 mod large;
 mod slow;
@@ -145,12 +146,14 @@ fn main() {
                 let slow_run = slow::start(o.seed, o.thorough);
                 c09::gen_all(&server, o.seed, o.thorough, out);
                 large::gen_c09(&server, o.seed, o.thorough, out);
+                float::gen_c09(&server, o.seed, o.thorough, out);
                 tls::gen_all(o.seed, o.thorough, out);
                 slow::finish(slow_run, out);
             }
             ("c10", None) => {
                 c10::gen_all(&server, o.seed, o.thorough, out);
                 large::gen_c10(&server, o.thorough, out);
+                float::gen_c10(&server, out);
             }
             (m, _) => panic!("unknown mode {:?}", m),
         }
